@@ -57,7 +57,7 @@ def parse_color(attr_value: str) -> styles.ColorType:
 
   m = _DEC_COLOR_RE.fullmatch(attr_value)
 
-  if m:
+  if m and all(int(c) <= 255 for c in m.groups()):
 
     return styles.ColorType(
       (
@@ -70,7 +70,7 @@ def parse_color(attr_value: str) -> styles.ColorType:
 
   m = _DEC_COLORA_RE.fullmatch(attr_value)
 
-  if m:
+  if m and all(int(c) <= 255 for c in m.groups()):
 
     return styles.ColorType(
       (
